@@ -80,6 +80,9 @@ def run_chain(make, names, which, kind, at, trans_kind):
         st, stats = tr.sample(st, rng)
         if not (np.all(np.isfinite(st.pos)) and np.all(np.isfinite(st.mom))):
             return f"non-finite chain state after fault"
+        nan_stats = [k for k, v in (stats or {}).items() if isinstance(v, float) and v != v]
+        if nan_stats:
+            return f"statistics {nan_stats} are NaN after the fault (poisons step-size adaptation)"
     return None
 
 
